@@ -6,6 +6,7 @@ import (
 	"fmt"
 	"runtime"
 	"strings"
+	"sync/atomic"
 	"testing"
 	"testing/cryptotest"
 	"testing/synctest"
@@ -42,6 +43,12 @@ type CtxPlan struct {
 	SlowDeadline int `json:"slow_deadline,omitempty"`
 	// ZeroWindow: the client does not read (blocked scenario): the alert write blocks.
 	ZeroWindow bool `json:"zero_window,omitempty"`
+	// Malformed (blocked scenario): the client sends a complete record that
+	// NewConn must refuse, and does not read: the alert write is what blocks.
+	Malformed bool `json:"malformed,omitempty"`
+	// Spin (InRead == "cancel-async"): the context is cancelled by another
+	// goroutine that spins this many times after the hello was handed over.
+	Spin int `json:"spin,omitempty"`
 }
 
 func executeCtx(t *testing.T, prop string, seed uint64, p *CtxPlan) *core.Result {
@@ -93,7 +100,13 @@ func executeCtx(t *testing.T, prop string, seed uint64, p *CtxPlan) *core.Result
 
 			if p.Blocked {
 				// (a) the context ends while NewConn is blocked on an incomplete hello
-				cc.Write(rec[:min(p.BlockedBytes, len(rec)-1)])
+				if p.Malformed {
+					bad := append([]byte(nil), rec...)
+					bad[0] = 23
+					cc.Write(bad)
+				} else {
+					cc.Write(rec[:min(p.BlockedBytes, len(rec)-1)])
+				}
 				end := time.Duration(p.EndUs) * time.Microsecond
 				var ctx context.Context
 				var cancel context.CancelFunc
@@ -105,7 +118,7 @@ func executeCtx(t *testing.T, prop string, seed uint64, p *CtxPlan) *core.Result
 				}
 				start := time.Now()
 				var nerr error
-				pk, m, s := core.Guard(func() { _, nerr = ech.NewConn(ctx, fc, ech.WithKeys(b.keys)) })
+				pk, m, s := core.Guard(func() { _, nerr = ech.NewConn(ctx, fc, keyOptions(b.keys)...) })
 				el := time.Since(start)
 				cancel()
 				switch {
@@ -113,6 +126,9 @@ func executeCtx(t *testing.T, prop string, seed uint64, p *CtxPlan) *core.Result
 					res.Fail(prop, "panic", s+": "+normMsg(m), "blocked NewConn")
 				case nerr == nil:
 					res.Fail(prop, "ctx", "NewConn succeeded on an incomplete hello", "")
+				case p.Malformed && el > end:
+					res.Fail(prop, "ctx", "NewConn still blocked after its context ended (peer does not read the alert)", "context ended (%s) after %v, NewConn returned after %v", p.EndKind, end, el)
+				case p.Malformed:
 				case el != end:
 					res.Fail(prop, "ctx", "blocked NewConn did not fail promptly when its context ended", "context ended (%s) after %v, NewConn returned after %v", p.EndKind, end, el)
 				}
@@ -139,7 +155,34 @@ func executeCtx(t *testing.T, prop string, seed uint64, p *CtxPlan) *core.Result
 				ctx, cancel = context.WithTimeout(context.Background(), time.Duration(p.DelayUs+1)*time.Microsecond)
 			}
 			endedDuring := false
-			if p.InRead != "none" {
+			var asyncDone chan struct{}
+			var releaseAsync func()
+			if p.InRead == "cancel-async" {
+				var fired atomic.Bool
+				firedCh := make(chan struct{})
+				asyncDone = make(chan struct{})
+				go func() {
+					defer close(asyncDone)
+					<-firedCh // parked (durably) until the hello is being handed over
+					for i := 0; i < p.Spin; i++ {
+						if fired.Load() && i < 0 {
+							return
+						}
+					}
+					cancel()
+				}()
+				releaseAsync = func() {
+					if !fired.Swap(true) {
+						close(firedCh)
+					}
+				}
+				fc.ReadHook = func(avail int) {
+					if int(fc.In().Delivered()) >= len(rec) && !fired.Load() {
+						endedDuring = true
+						releaseAsync()
+					}
+				}
+			} else if p.InRead != "none" {
 				fc.ReadHook = func(avail int) {
 					// fire when the last bytes of the hello are about to be handed over
 					if int(fc.In().Delivered()) >= len(rec) && !endedDuring {
@@ -153,9 +196,13 @@ func executeCtx(t *testing.T, prop string, seed uint64, p *CtxPlan) *core.Result
 			}
 			var conn *ech.Conn
 			var nerr error
-			pk, m, s := core.Guard(func() { conn, nerr = ech.NewConn(ctx, fc, ech.WithKeys(b.keys)) })
+			pk, m, s := core.Guard(func() { conn, nerr = ech.NewConn(ctx, fc, keyOptions(b.keys)...) })
 			retSeq := w.Seq()
 			fc.ReadHook = nil
+			if asyncDone != nil {
+				releaseAsync() // in case NewConn never reached the hello
+				<-asyncDone
+			}
 			if pk {
 				res.Fail(prop, "panic", s+": "+normMsg(m), "NewConn")
 				cancel()
@@ -201,8 +248,15 @@ func executeCtx(t *testing.T, prop string, seed uint64, p *CtxPlan) *core.Result
 					break
 				}
 			}
-			if !endedDuring {
+			if endedDuring {
+				res.Probe("ctx_end_during_newconn_ok")
+			} else {
 				res.Probe("ctx_end_after_return")
+			}
+			{
+				// the context bounds ONLY the reading of the first hello: a
+				// connection NewConn handed out successfully must work, whenever
+				// its context ended
 				// later I/O works
 				extra := echbox.Record(23, 0x0303, []byte("later"))
 				cc.Write(extra)
@@ -219,14 +273,16 @@ func executeCtx(t *testing.T, prop string, seed uint64, p *CtxPlan) *core.Result
 						}
 					}
 				})
+				when := "after " + p.After
+				if endedDuring {
+					when = "context ended while NewConn was finishing (" + p.InRead + ")"
+				}
 				if rerr != nil {
-					res.Fail(prop, "ctx", "Conn.Read fails after the NewConn context ended: "+normErr(rerr), "after %s", p.After)
+					res.Fail(prop, "ctx", "Conn.Read fails after the NewConn context ended: "+normErr(rerr), "%s", when)
 				}
 				if _, werr := conn.Write(extra); werr != nil {
-					res.Fail(prop, "ctx", "Conn.Write fails after the NewConn context ended: "+normErr(werr), "after %s", p.After)
+					res.Fail(prop, "ctx", "Conn.Write fails after the NewConn context ended: "+normErr(werr), "%s", when)
 				}
-			} else {
-				res.Probe("ctx_end_during_newconn_ok")
 			}
 			cancel()
 			fc.Close()
@@ -289,15 +345,23 @@ func genC10(seed uint64, idx int) *Plan {
 		c.After = "timeout-after"
 		c.DelayUs = r.IntN(1000)
 	case 5:
-		c.InRead = []string{"cancel", "cancel-gosched"}[r.IntN(2)]
+		c.InRead = []string{"cancel", "cancel-gosched", "cancel-async", "cancel-async"}[r.IntN(4)]
 		c.After = []string{"none", "cancel"}[r.IntN(2)]
 		c.SlowDeadline = []int{0, 10, 200}[r.IntN(3)]
+		if c.InRead == "cancel-async" {
+			c.Spin = []int{0, 10, 100, 1000, 10000}[r.IntN(5)]
+			c.Reps = 48
+			if c.Procs == 1 {
+				c.Procs = 4
+			}
+		}
 	case 6, 7:
 		c.Blocked = true
 		c.BlockedBytes = r.IntN(400)
 		c.EndUs = 1 + r.IntN(5000000)
 		c.EndKind = []string{"cancel", "timeout"}[r.IntN(2)]
 		c.ZeroWindow = r.IntN(2) == 0
+		c.Malformed = c.ZeroWindow && r.IntN(2) == 0
 		c.Reps = 4
 	}
 	return &Plan{Kind: "ctx", Seed: seed, Ctx: c}
